@@ -161,8 +161,16 @@ func VH_C08_Step(batchSize, preOpen, k, step int) {
 			}
 		}
 	}
-	if step == 0 && vhIsSymbolic() {
-		vhAssert(vhSpawned() == newBatches, "one-flush-goroutine-per-new-batch")
+	_ = newBatches
+	if step == 0 && ptw.currBatch != nil && ptw.currBatch != open0 {
+		// flushed without further input: when the timer of the batch left open expires, its flush goroutine
+		// queues it (the goroutine was spawned by writeMessages; here it gets to run)
+		open1 := ptw.currBatch
+		queued := len(ptw.queue.queue)
+		vhFire(open1.timer)
+		vhRunAll()
+		vhAssert(ptw.currBatch == nil, "open-batch-flushed-when-its-timer-expires")
+		vhAssert(len(ptw.queue.queue) == queued+1 && ptw.queue.queue[queued] == open1, "timer-queues-the-batch-left-open")
 	}
 	vhReach("c08-step")
 }
